@@ -1,9 +1,271 @@
-"""C32 -- bounded (built separately in contracts/parts); deductive contracts to be added."""
-from contracts._parts import bounded, EXPLORATION_NOTE
+"""C32 -- DNS messages round-trip: resource-record payloads.
 
-CONTRACTS = []
+Deductive: for each record class below, for *every* value of its fields that encode() accepts, decode() applied to
+exactly the bytes encode() wrote gives the same fields back and consumes exactly those bytes; and decode() applied to
+any proper prefix of those bytes raises EOFError (a truncated message never yields a record that was not sent).  The
+stream is a contract-level model of io.BytesIO; struct.pack / unpack are modelled exactly (big-endian two's complement);
+Name.encode / Name.decode are used through their contract -- "decode at the position where encode wrote a name gives
+that name back and consumes exactly its wire form, or raises EOFError if the wire form is cut" -- which C33 and the
+bounded tier establish (names, compression, pointers).
+Bounded (contracts/parts/C32_bounded.py): whole messages, names and compression, truncation, size limits.
+"""
+import z3
+
+from pyvc.api import *
+from pyvc import core
+from contracts._parts import bounded
+from twisted.names import dns
+
+SEQ = core.IntSeq
+NAMEWIRE = z3.Function("c32_wire_form_of_name", SEQ, SEQ)
+
+
+class Stream:
+    """io.BytesIO as the record codecs use it: write() appends at the end (the position is at the end while encoding),
+    read(n) returns the at most n bytes at the position and advances past them, tell() returns the position."""
+
+    def __init__(self, buf=b"", pos=0):
+        self.buf = buf
+        self.pos = pos
+
+    def write(self, data):
+        I = ctx().ghost["$interp"]
+        if not I.truth(veq(self.pos, L(self.buf))):
+            raise Unsupported("write in the middle of the stream")
+        self.buf = self.buf + data
+        self.pos = L(self.buf)
+        return L(data)
+
+    def read(self, n=-1):
+        if not is_sym(n) and n < 0:
+            raise Unsupported("read() to the end of the stream")
+        r = self.buf[self.pos: self.pos + n]
+        self.pos = self.pos + L(r)
+        return r
+
+    def tell(self):
+        return self.pos
+
+
+def fget(o, name):
+    return o._fields[name] if isinstance(o, core.SObj) else getattr(o, name)
+
+
+def fset(I, o, name, v):
+    if isinstance(o, core.SObj):
+        o._fields[name] = v
+    else:
+        setattr(o, name, v)
+
+
+def name_encode(I, nm, strio, compDict=None):
+    """Name.encode as its contract: the name's wire form (at least the root byte) is written at the position"""
+    c = ctx()
+    n = fget(nm, "name")
+    wire = core.SSeq(NAMEWIRE(core.seq_term(n, "bytes")), "bytes")
+    c.assume(z3.Length(wire.term) >= 1)
+    c.ghost.setdefault("names", []).append((strio.tell(), n, wire))
+    strio.write(wire)
+
+
+def name_decode(I, nm, strio, length=None):
+    """Name.decode as its contract: at a position where a name was written, that name comes back and exactly its wire form is
+    consumed; EOFError if the stream ends inside it"""
+    c = ctx()
+    for pos, n, wire in c.ghost.get("names", []):
+        if I.truth(veq(pos, strio.pos)):
+            if I.truth(strio.pos + L(wire) <= L(strio.buf)):
+                # (the stream being decoded is what encode wrote, or a prefix of it: the bytes at this position are
+                # this name's wire form by construction)
+                strio.pos = strio.pos + L(wire)
+                fset(I, nm, "name", n)
+                return None
+            raise EOFError()
+    # decoder and encoder disagree about where the name is: what the real Name.decode makes of the bytes it finds there
+    # is over-approximated by "some name, some number (>= 1) of bytes consumed, or EOFError"
+    if c.decide(z3.Bool(c.fresh_name("misplaced_name_eof"))):
+        raise EOFError()
+    k = z3.Int(c.fresh_name("misplaced_name_len"))
+    c.assume(z3.And(k >= 1, core.num_term(strio.pos) + k <= z3.Length(core.seq_term(strio.buf, "bytes"))))
+    c.check_feasible()
+    strio.pos = strio.pos + core.mk_num(k)
+    fset(I, nm, "name", core.fresh_seq(c.fresh_name("misplaced_name"), "bytes"))
+    return None
+
+
+name_encode.wants_receiver = True
+name_decode.wants_receiver = True
+U16, U32, U8 = Int(0, 65535), Int(0, 2 ** 32 - 1), Int(0, 255)
+S32 = Int(-2 ** 31, 2 ** 31 - 1)
+
+
+class _RoundTrip(Contract):
+    prop = "C32"
+    module = "twisted.names.dns"
+    differential = False
+    calls = {"Name.encode": name_encode, "Name.decode": name_decode}
+    CLS = None
+    FIELDS = {}       # field -> Spec (ints / bytes)
+    NAMES = ()        # fields holding a Name
+    LENGTH = False    # decode needs the rdlength
+    trusted = ["io.BytesIO append / read / tell semantics (contracts.C32.Stream)",
+               "Name.encode / Name.decode used through their contract (wire form uninterpreted; C33 + bounded tier)"]
+
+    @property
+    def also(self):
+        return [self.CLS.__name__ + ".decode", "readPrecisely"]
+
+    @property
+    def function(self):
+        return self.CLS.__name__ + ".encode"
+
+    @property
+    def inputs(self):
+        d = dict(self.FIELDS)
+        for n in self.NAMES:
+            d[n] = Bytes(alphabet=b"a.", small_len=2)
+        d["cut"] = Int(0, None)
+        d["truncated"] = ForkBool()
+        return d
+
+    def blank(self):
+        return self.CLS()
+
+    def record(self, i):
+        fields = dict(vars(self.blank()))
+        for f in self.FIELDS:
+            fields[f] = getattr(i, f)
+        for n in self.NAMES:
+            fields[n] = self.make(dns.Name, name=getattr(i, n))
+        return core.SObj(self.CLS, None, fields)  # (Query has a field called cls: no keyword passing)
+
+    def requires(self, i):
+        return True
+
+    def setup(self, i):
+        rec = self.record(i)
+        back = core.SObj(self.CLS, None, dict(vars(self.blank())))
+        out = Stream()
+        g = {}
+
+        def drive(call):
+            call(rec, "encode", out, None)
+            wire = out.buf
+            g["wire"] = wire
+            if i.truncated:
+                c = ctx()
+                c.assume(core.as_bool_term(band(i.cut >= 0, i.cut < L(wire))))
+                c.check_feasible()
+                src = Stream(wire[:i.cut], 0)
+                length = i.cut
+            else:
+                src = Stream(wire, 0)
+                length = L(wire)
+            g["src"] = src
+            if self.LENGTH:
+                # the rdlength the header announces is that of the record that was sent
+                return call(back, "decode", src, L(wire))
+            return call(back, "decode", src)
+        return dict(drive=drive, objs=dict(rec=rec, back=back), ghost=dict(g=g))
+
+    def bounded_inputs(self, tier):
+        return iter(())
+
+    raises = {EOFError: lambda S: S.i.truncated}
+
+    def _same(S):
+        if S.exc is not None or S.i.truncated:
+            return None
+        ok = True
+        for f in S.ghost["$contract"].FIELDS:
+            ok = band(ok, veq(fget(S.ghost["$objs"]["back"], f), getattr(S.i, f)))
+        for n in S.ghost["$contract"].NAMES:
+            nm = fget(S.ghost["$objs"]["back"], n)
+            ok = band(ok, veq(fget(nm, "name"), getattr(S.i, n)))
+        g = S.ghost["g"]
+        return band(ok, veq(g["src"].pos, L(g["wire"])))
+
+    ensures = dict(decode_of_encode_gives_the_fields_back_and_consumes_exactly_the_record=_same)
+
+
+def rt(cls, fields=None, names=(), length=False, blank=None, requires=None, canaries=()):
+    attrs = dict(CLS=cls, FIELDS=fields or {}, NAMES=tuple(names), LENGTH=length, canaries=list(canaries))
+    if blank is not None:
+        attrs["blank"] = lambda self: blank()
+    if requires is not None:
+        attrs["requires"] = lambda self, i: requires(i)
+    return type("RoundTrip_" + cls.__name__, (_RoundTrip,), attrs)
+
+
+class RoundTrip_Record_TXT(_RoundTrip):
+    """TXT / SPF: up to two strings of arbitrary content (the number of strings is bounded, their bytes are not)"""
+    CLS = dns.Record_TXT
+    LENGTH = True
+    loops = {"Record_TXT.decode#0": LoopSpec(inv=None, unroll=3)}
+    trusted = _RoundTrip.trusted + ["TXT: at most two strings per record (decode loop unrolled with an unwinding assertion)"]
+
+    @property
+    def inputs(self):
+        return dict(n=OneOf(0, 1, 2), s1=Bytes(maxlen=255, small_len=2), s2=Bytes(maxlen=255, small_len=2),
+                    cut=Int(0, None), truncated=ForkBool())
+
+    def requires(self, i):
+        return True if i.n > 0 else bnot(i.truncated)  # an empty record has no proper prefix
+
+    def record(self, i):
+        return core.SObj(self.CLS, None, dict(vars(self.blank()), data=[i.s1, i.s2][:i.n]))
+
+    def _same(S):
+        if S.exc is not None or S.i.truncated:
+            return None
+        got = fget(S.ghost["$objs"]["back"], "data")
+        want = [S.i.s1, S.i.s2][:S.i.n]
+        if not isinstance(got, list) or len(got) != len(want):
+            return False
+        g = S.ghost["g"]
+        return band(veq(g["src"].pos, L(g["wire"])), *[veq(a, b) for a, b in zip(got, want)])
+
+    ensures = dict(decode_of_encode_gives_the_fields_back_and_consumes_exactly_the_record=_same)
+    canaries = [("strio.write(struct.pack(\"!B\", len(d)) + d)", "strio.write(struct.pack(\"!B\", len(d)) + d[:254])",
+                 "decode_of_encode_gives_the_fields_back_and_consumes_exactly_the_record")]
+
+
+CONTRACTS = [
+    RoundTrip_Record_TXT,
+    rt(dns.Record_A, dict(address=Bytes(maxlen=4, minlen=4, small_len=4))),
+    rt(dns.Record_AAAA, dict(address=Bytes(maxlen=16, minlen=16, small_len=16))),
+    rt(dns.Record_MX, dict(preference=U16), names=["name"],
+       canaries=[("struct.pack(\"!H\", self.preference)", "struct.pack(\"!B\", self.preference % 256)", "decode_of_encode_gives_the_fields_back_and_consumes_exactly_the_record")]),
+    rt(dns.Record_SRV, dict(priority=U16, weight=U16, port=U16), names=["target"],
+       canaries=[("struct.pack(\"!HHH\", self.priority, self.weight, self.port)", "struct.pack(\"!HHH\", self.weight, self.priority, self.port)",
+                  "decode_of_encode_gives_the_fields_back_and_consumes_exactly_the_record")]),
+    rt(dns.Record_AFSDB, dict(subtype=U16), names=["hostname"]),
+    rt(dns.Record_RP, names=["mbox", "txt"]),
+    rt(dns.Record_MINFO, names=["rmailbx", "emailbx"]),
+    rt(dns.SimpleRecord, names=["name"]),  # NS, CNAME, PTR, DNAME, MB, MD, MF, MG, MR share this codec
+    rt(dns.Record_SOA, dict(serial=U32, refresh=S32, retry=S32, expire=S32, minimum=U32), names=["mname", "rname"]),
+    rt(dns.Record_NULL, dict(payload=Bytes(small_len=2)), length=True),
+    rt(dns.UnknownRecord, dict(data=Bytes(small_len=2)), length=True, blank=lambda: dns.UnknownRecord(b"")),
+    rt(dns.Record_HINFO, dict(cpu=Bytes(maxlen=255, small_len=2), os=Bytes(maxlen=255, small_len=2))),
+    rt(dns.Record_SSHFP, dict(algorithm=U8, fingerprintType=U8, fingerprint=Bytes(small_len=2)), length=True),
+    rt(dns.Query, dict(type=U16, cls=U16), names=["name"]),
+]
 BOUNDED = bounded("C32")
-NOTES = dict(explanation="bounded stand-in", not_covered=["deductive contracts"])
-MANIFEST = dict(category="exploration", text="Bounded stand-in only (see contracts/parts/C32_bounded.py for the scopes).",
-                note=EXPLORATION_NOTE,
-                technique="bounded exhaustive evaluation of an executable contract on the real code (stand-in; not proved)")
+_RECORDS = ("A, AAAA, MX, SRV, AFSDB, RP, MINFO, SimpleRecord (NS, CNAME, PTR, DNAME, MB, MD, MF, MG, MR), SOA, NULL, "
+            "UnknownRecord, HINFO, SSHFP, Query and TXT / SPF (up to two strings of arbitrary content)")
+NOTES = dict(explanation="record payload codecs (" + _RECORDS + ") proved to round-trip for every field value and to raise EOFError on "
+                         "every proper prefix; names, compression, whole messages and limits bounded (contracts/parts/C32_bounded.py)",
+             not_covered=["Name.encode / Name.decode themselves (compression table, pointers): C33 proves decode total and terminating, the "
+                          "round trip of names is bounded", "RRHeader / Message framing (rdlength patching, section counts, TC flag), "
+                          "TXT with more than two strings, NAPTR / WKS / A6 / TSIG payloads, EDNS options: bounded tier only"])
+MANIFEST = dict(
+    category="proof",
+    text="For the payload codecs of " + _RECORDS + ": decode() applied to exactly the bytes encode() wrote returns every field "
+         "unchanged and consumes exactly those bytes, for every field value encode() accepts (integers over their whole struct "
+         "range, arbitrary byte strings, arbitrary names); decode() applied to any proper prefix raises EOFError.  struct.pack / "
+         "unpack are modelled exactly; the stream is a model of io.BytesIO; names go through the contract of Name.encode / "
+         "decode (uninterpreted wire form).  Names and compression, message framing, the remaining record types, size limits "
+         "and truncation of whole messages are exercised in the bounded tier only (scopes in contracts/parts/C32_bounded.py).",
+    note="Trusted: pyvc, SMT solvers, the stream model, Name's contract.  Everything else: bounded, never counted as proved.",
+    technique="contract-based deductive verification (encode then decode executed symbolically on a stream model, exact struct model, SMT) + bounded exhaustive messages",
+)
